@@ -172,6 +172,9 @@ Print Assumptions C09_bucket_table_total.
 Theorem C09_descending : forall use lo hi w ss g,
   bucket_table use lo hi w ss g true = rev (bucket_table use lo hi w ss g false).
 Proof. exact bucket_table_desc. Qed.
+(* ORDER BY time DESC, repaired evaluation: visiting the rows newest-first changes no aggregate *)
+Theorem C09_desc_rows_repaired : forall rows, agg_rows_desc_repaired rows = agg_rows rows.
+Proof. exact build_stats_rev. Qed.
 Example C09_bucket_example :   (* two series in group 7, one in group 8; buckets of width 5 over 0..12; segment [5..8] lies in bucket 1 *)
   let s1 := {| g_key := 7; g_segs := [mk_segment [(1, Some 4); (3, Some 1)]; mk_segment [(5, Some 2); (8, Some 6)]]; g_mem := [(11, Some 9)] |} in
   let s2 := {| g_key := 7; g_segs := [mk_segment [(4, Some 5); (6, None)]]; g_mem := [] |} in
